@@ -149,6 +149,11 @@ pub fn link_target_collection(ptr: &str) -> Option<&'static str> {
     })
 }
 
+/// The meta block a new model gets from the editor (Meta::default() of the library)
+fn default_meta() -> Value {
+    json!({"name": "Nombre del proyecto", "is_new_building": true, "is_dwelling": true, "num_dwellings": 1, "climate": "D3"})
+}
+
 fn id_at(m: &Value, coll: &str, idx: Option<usize>) -> String {
     let path = closure::COLLECTIONS.iter().find(|c| c.0 == coll).unwrap().1;
     idx.and_then(|i| {
@@ -352,7 +357,7 @@ pub fn apply(m: &mut Value, e: &MEdit, serial: u64) -> bool {
                 *m = json!({});
             }
             let o = m.as_object_mut().unwrap();
-            let meta = o.entry("meta").or_insert_with(|| json!({}));
+            let meta = o.entry("meta").or_insert_with(default_meta);
             if let Some(mo) = meta.as_object_mut() {
                 mo.insert("climate".into(), json!(zone));
                 true
@@ -365,7 +370,7 @@ pub fn apply(m: &mut Value, e: &MEdit, serial: u64) -> bool {
                 *m = json!({});
             }
             let o = m.as_object_mut().unwrap();
-            let meta = o.entry("meta").or_insert_with(|| json!({}));
+            let meta = o.entry("meta").or_insert_with(default_meta);
             if let Some(mo) = meta.as_object_mut() {
                 mo.insert(key.clone(), value.clone());
                 true
